@@ -41,7 +41,11 @@ var c05ws = []string{" ", " ", "\t", "\n", "\r\n", "\f", "  "}
 
 func c05exec(j run.Job, a *run.Acc) {
 	r := rand.New(rand.NewSource(j.Seed))
-	ar := newArith()
+	baseFirst := j.Param("basefirst", 0) == 1
+	ar := newArithOrder(baseFirst)
+	if baseFirst {
+		a.Count("jobs with the non-recursive alternative listed first", 1)
+	}
 	for it := 0; it < j.N; it++ {
 		g := &arithGen{r: r, maxDepth: 2 + r.Intn(j.Param("depth", 6)), zeroBias: []int{0, 5, 25}[r.Intn(3)], ws: c05ws, longChains: true}
 		if g.maxDepth > 4 {
@@ -207,14 +211,14 @@ func init() {
 				n, per, depth = 64, 1200, 8
 			}
 			for i := 0; i < n; i++ {
-				jobs = append(jobs, run.Job{Family: "generated", Seed: seed*100000 + int64(i), N: per, P: map[string]int{"depth": depth}})
-				jobs = append(jobs, run.Job{Family: "mutated", Seed: seed*100000 + 50000 + int64(i), N: per, P: map[string]int{"depth": depth - 2}})
+				jobs = append(jobs, run.Job{Family: "generated", Seed: seed*100000 + int64(i), N: per, P: map[string]int{"depth": depth, "basefirst": i % 2}})
+				jobs = append(jobs, run.Job{Family: "mutated", Seed: seed*100000 + 50000 + int64(i), N: per, P: map[string]int{"depth": depth - 2, "basefirst": (i / 2) % 2}})
 			}
 			return jobs
 		},
 		Exec: c05exec,
 		Finish: func(tier string, a *run.Acc, cov map[string]any) string {
-			cov["rule"] = "harness grammar from library parts: expr -> expr (+|-) term | term, term -> term (*|/) factor | factor, factor -> Integer | ( expr ), all memoized, tokens left-trimmed, Sentence(Trim(expr)); " +
+			cov["rule"] = "harness grammar from library parts: expr -> expr (+|-) term | term, term -> term (*|/) factor | factor, factor -> Integer | ( expr ), all memoized, tokens left-trimmed, Sentence(Trim(expr)), half of the jobs with the non-recursive alternative listed first (term | expr op term); " +
 				"binary interpreter on int64 reporting division by zero at the operator node. 'generated': expressions printed from a random AST (signed decimal/hex/octal literals, nesting, free whitespace incl. LF/CRLF/FF) " +
 				"so value, first division by zero in evaluation order and its line:column are known by construction. 'mutated': 1-2 byte edits; an independent recursive-descent recogniser (C08 integer scanner) decides " +
 				"well-formedness, value and error position; ill-formed => error required, never a panic. non-trivial = value/err compared on an input with at least one operator, or an ill-formed input rejected"
